@@ -18,6 +18,7 @@ type Reader struct {
 
 	rd       prefixReader
 	err      error
+	done     bool   // Has Close completed successfully?
 	level    int    // The current compression level
 	rdHdrFtr int    // Number of times we read the stream header and footer
 	blkCRC   uint32 // CRC-32 IEEE of each block (as stored)
@@ -132,9 +133,9 @@ func (zr *Reader) Read(buf []byte) (int, error) {
 }
 
 func (zr *Reader) Close() error {
-	if zr.err == io.EOF || zr.err == errClosed {
+	if zr.err == io.EOF || zr.done {
 		zr.rle.Init(nil) // Make sure future reads fail
-		zr.err = errClosed
+		zr.err, zr.done = errClosed, true
 		return nil
 	}
 	return zr.err // Return the persistent error
